@@ -17,7 +17,7 @@ def optBytesTok : Option (List Nat) → String
 def two (l1 l0 : Dec) : String := s!"{decTok l1} ;; {decTok l0}"
 
 /-- widths for which the harness has the DER / RLP ops monomorphised -/
-def derWidth (n : Nat) : Bool := [1, 2, 3, 4, 6, 7, 8, 16, 32, 128].contains n
+def derWidth (n : Nat) : Bool := [1, 2, 3, 4, 6, 7, 8, 9, 12, 13, 14, 16, 24, 28, 32, 48, 56, 64, 96, 128].contains n
 def rlpDecWidth (n : Nat) : Bool := [1, 2, 3, 4].contains n
 
 def withVal (n v : String) (ok : Nat → Bool) (f : Nat → List Nat → String) : Option String :=
